@@ -407,6 +407,8 @@ theorem generate_ok {cfg : Cfg} {d : Dictionary} {o : Options} {out : Output} (h
   · cases h
   split at h
   · cases h
+  split at h
+  · cases h
   simp only [Except.ok.injEq] at h
   subst h
   exact ⟨seen, r.1, r.2, hca, hcv, hfx, hve, rfl⟩
